@@ -10,7 +10,19 @@ import cfgprop
 import spine
 
 MODULE = "ProbLogProofs.Properties.C07"
-THEOREMS = ["ProbLogProofs.C07.C07_perm_worlds_nil"]
+THEOREMS = [
+    "ProbLogProofs.C07.C07_perm_clauses_gamma",
+    "ProbLogProofs.C07.C07_perm_body",
+    "ProbLogProofs.C07.C07_gamma_set_of_rules",
+    "ProbLogProofs.C07.C07_perm_clauses_wfm",
+    "ProbLogProofs.C07.C07_perm_body_wfm",
+    "ProbLogProofs.C07.C07_perm_clauses_relevant",
+    "ProbLogProofs.C07.C07_perm_clauses_run",
+    "ProbLogProofs.C07.C07_perm_body_run",
+    "ProbLogProofs.C07.C07_perm_groups_run",
+    "ProbLogProofs.C07.C07_perm_evidence_run",
+    "ProbLogProofs.C07.C07_perm_queries_run",
+]
 
 MANIFEST = {
     "level": "other",
